@@ -42,6 +42,14 @@ class MaskableGraph(Graph):
             self.adj_map[neighbour].add(node)
             self._masked_adj[neighbour].remove(node)
 
+    def del_node(self, node):
+        """Remove a node from the graph"""
+        # Masked neighbours are not in adj_map[node], forget those edges too:
+        for neighbour in list(self._masked_adj[node]):
+            self._masked_adj[node].remove(neighbour)
+            self.adj_map[neighbour].remove(node)
+        super().del_node(node)
+
     def is_masked(self, node):
         """Test if a node is masked"""
         return node in self._masked_nodes
